@@ -1,0 +1,40 @@
+//go:build !verif
+
+package vhook
+
+import (
+	"io"
+	"sync"
+)
+
+// Enabled reports whether the verification hooks are compiled in.
+const Enabled = false
+
+// Yield marks a scheduling point.
+func Yield(point string, idx int) {}
+
+// Step marks a scheduling point in front of a fallible operation on arg and
+// lets a simulator fail the operation instead of performing it.
+func Step(point string, arg string) error { return nil }
+
+// Event reports an observation to the simulator.
+func Event(point string, arg string) {}
+
+// Writer lets a simulator wrap a writer to split, delay or fail writes.
+func Writer(point string, w io.Writer) io.Writer { return w }
+
+// AwaitMutex lets a simulator turn waiting for m into a scheduling point.
+func AwaitMutex(name string, m *sync.Mutex) {}
+
+// PoolGet lets a simulated allocator supply an object of the given kind.
+func PoolGet(kind string) interface{} { return nil }
+
+// PoolPut lets a simulated allocator take over a released object.
+func PoolPut(kind string, v interface{}) bool { return false }
+
+// Knob lets a simulator override a tuning constant.
+func Knob(name string, def int) int { return def }
+
+// SortStrings puts keys taken from a map into a fixed order when csvq is built
+// for verification, so that simulated runs can be replayed.
+func SortStrings(keys []string) []string { return keys }
